@@ -214,10 +214,9 @@ impl<'a> GreedyRepeatIterator<'a> {
     // Enough iterations? An iteration that consumed nothing can be repeated
     // as often as the minimum requires.
     fn complete(&self) -> bool {
-        let n = self.positions.len();
         self.iterators.len() >= self.min
-            || (n >= 2 && self.positions[n - 1] == self.positions[n - 2])
-            || (n == 1 && self.positions[0] == self.start)
+            || self.positions.first() == Some(&self.start)
+            || self.positions.windows(2).any(|w| w[0] == w[1])
     }
 
     #[allow(clippy::too_many_arguments)]
